@@ -646,7 +646,16 @@ pub fn scenario(rng: &mut Rng, i: u64) -> (String, FsSpec, TaskSpec) {
             "void dup_cs2() {}\nPipeline P0 { ComputeShader = dup_cs2; }\n",
             "Pipeline NoEntry { }\n",
             "void twice_cs() {}\nPipeline Twice { ComputeShader = twice_cs; ComputeShader = twice_cs; }\n",
-        ][rng.below(16) as usize];
+            // graphics state on a compute pipeline, one property at a time
+            "void gs_cs0() {}\nPipeline GsCs0 { ComputeShader = gs_cs0; DepthTargetFormat = \"D32_FLOAT\"; }\n",
+            "void gs_cs1() {}\nPipeline GsCs1 { ComputeShader = gs_cs1; RenderTargetFormat0 = \"R8G8B8A8_UNORM\"; }\n",
+            "void gs_cs2() {}\nPipeline GsCs2 { ComputeShader = gs_cs2; CullMode = Back; }\n",
+            "void gs_cs3() {}\nPipeline GsCs3 { ComputeShader = gs_cs3; WindingOrder = Clockwise; }\n",
+            "void gs_cs4() {}\nPipeline GsCs4 { ComputeShader = gs_cs4; BlendState = { BlendEnabled = true; }; }\n",
+            "void gs_cs5() {}\nPipeline GsCs5 { ComputeShader = gs_cs5; BlendState3 = { BlendEnabled = true; }; }\n",
+            "void gs_cs6() {}\nPipeline GsCs6 { ComputeShader = gs_cs6; DefaultBindGroup = 9; RenderTargetFormat7 = \"R16_FLOAT\"; }\n",
+            "void gs_vs(out float4 p : SV_Position) { p = float4(0, 0, 0, 1); }\nfloat4 gs_ps() : SV_Target0 { return float4(0, 0, 0, 0); }\nPipeline GsOk { VertexShader = gs_vs; PixelShader = gs_ps; DepthTargetFormat = \"D32_FLOAT\"; RenderTargetFormat0 = \"R8G8B8A8_UNORM\"; CullMode = Front; WindingOrder = CounterClockwise; }\nPipeline GsBad { VertexShader = gs_vs; PixelShader = gs_ps; CullMode = Sideways; }\n",
+        ][rng.below(24) as usize];
         format!("{src}{tail}")
     } else {
         src
